@@ -26,15 +26,23 @@
 (* Roll skips only requests whose waiter gave up (flag set under the lock),    *)
 (* and a waiter whose TTL fires re-checks done[i] under the lock.              *)
 (*                                                                             *)
+(* TtlPeek = TRUE (non-vacuity) is a variant of the repaired hand-off in which   *)
+(* the waiter looks at done[i] when its TTL fires, *before* it re-takes the     *)
+(* mutex, instead of under it: a hand-over in between is counted but lost.      *)
+(*                                                                             *)
 (* Driver = TRUE restricts the interleavings to those a driver can force on    *)
 (* the real code with the lock-step clock and the yield point: arrivals, gate  *)
-(* releases and ticks happen only when every goroutine is blocked.             *)
+(* releases and ticks happen only when every goroutine is blocked; the timers   *)
+(* due at one instant are delivered one at a time, oldest first or youngest     *)
+(* first (chosen per tick), each after everything is blocked again; and the     *)
+(* roll-over goroutine can be held inside its critical section (right after     *)
+(* Lock . ensureWindowIsUpdated) while the remaining timers are delivered.      *)
 (*                                                                             *)
 (* The variables of DpqP (now, rq, rel, last) are carried along, updated at    *)
 (* the linearization points; `ok` = every outcome so far was permitted by P.   *)
 EXTENDS Integers, FiniteSets, Sequences, TLC
 
-CONSTANTS Req, Prio, Ttl, Quota, W, QSize, MaxNow, KF_C10_LostHandoff, Driver, KeepHist
+CONSTANTS Req, Prio, Ttl, Quota, W, QSize, MaxNow, KF_C10_LostHandoff, TtlPeek, Driver, KeepHist
 
 (*--algorithm DpqI {
 variables
@@ -48,11 +56,18 @@ variables
     parked = [i \in Req |-> FALSE],        \* blocked in the select: receiver on done[i]
     sig = [i \in Req |-> FALSE],           \* a value was handed over (or buffered) on done[i]
     woke = [i \in Req |-> "no"],           \* which case of the select fired
+    peek = [i \in Req |-> FALSE],          \* (TtlPeek) what the waiter saw on done[i] before taking the mutex
     gone = [i \in Req |-> FALSE],          \* (repaired) the waiter gave up
     deadline = [i \in Req |-> -1],         \* instant of the TTL timer
+    stamp = [i \in Req |-> -1],            \* creation order of the TTL timer
     res = [i \in Req |-> "none"],          \* "ok" | "full" | "ttl"
+    relWin = [i \in Req |-> -1],           \* window in which Roll counted the request
     rollAt = W,                            \* instant of Roll's timer
-    cur = 0,                               \* request popped by Roll
+    rollStamp = 0,                         \* creation order of Roll's timer
+    seq = 1,                               \* next creation stamp
+    rev = FALSE,                           \* (Driver) timers due at one instant are delivered youngest first
+    held = FALSE,                          \* (Driver) Roll is held inside its critical section
+    cur = 0,
     rq = <<>>, rel = <<>>, last = [ev |-> "init"],       \* DpqP
     ok = TRUE,
     strand = {},                           \* popped before its time-to-live ended, yet not released
@@ -64,11 +79,19 @@ define {
     Mins == {i \in heap : \A j \in heap : ~Less(j, i)}
     NewEnd == (now \div W + 1) * W
     TimerDue(i) == parked[i] /\ now >= deadline[i]
-    \* every goroutine is blocked: nothing can happen until the driver acts
-    Quiet == /\ pc["roll"] = "r0" /\ now < rollAt
-             /\ \A i \in Req : /\ pc[i] \in {"e1", "e3", "Done"} \/ (pc[i] = "e2" /\ gated[i])
-                               /\ ~TimerDue(i)
-                               /\ (pc[i] = "e3" => woke[i] = "no")
+    RollDue == pc["roll"] = "r0" /\ now >= rollAt
+    \* undelivered timers that are due, by creation stamp; the one the driver delivers next
+    DueStamps == {stamp[i] : i \in {j \in Req : TimerDue(j)}} \cup (IF RollDue THEN {rollStamp} ELSE {})
+    NextStamp == IF rev THEN CHOOSE x \in DueStamps : \A y \in DueStamps : y <= x
+                 ELSE CHOOSE x \in DueStamps : \A y \in DueStamps : x <= y
+    \* every goroutine is blocked (on an undelivered timer, on the mutex, at a yield point, in its select)
+    Settled == /\ pc["roll"] = "r0" \/ (pc["roll"] = "rh" /\ held)
+               /\ \A i \in Req : \/ pc[i] \in {"e1", "Done"}
+                                 \/ pc[i] = "e2" /\ gated[i]
+                                 \/ pc[i] = "e3" /\ woke[i] = "no"
+                                 \/ pc[i] = "e4" /\ lock # "free"
+    \* ... and nothing is left to deliver: the driver acts
+    Quiet == Settled /\ DueStamps = {} /\ pc["roll"] = "r0"
     \* bounded lag: what a timer woke has reacted before the next tick
     Prompt == /\ pc["roll"] = "r0" /\ now < rollAt
               /\ \A i \in Req : ~TimerDue(i) /\ pc[i] # "e4" /\ (pc[i] = "e3" => woke[i] = "no")
@@ -106,20 +129,29 @@ process (Enq \in Req) {
   e2: \* [dpq.before_park] select entered: timer armed; a buffered value is taken at once, otherwise park
       await gated[self] => Quiet;
       deadline[self] := now + Ttl[self];
+      stamp[self] := seq; seq := seq + 1;
       if (sig[self]) { woke[self] := "sig" } else { parked[self] := TRUE };
       hist := IF gated[self] THEN Log([ev |-> "park", i |-> self]) ELSE hist;
       gated[self] := FALSE;
-  e3: \* woken: by Roll's hand-over (woke was set by Roll) or by the TTL timer
-      await woke[self] # "no" \/ TimerDue(self);
-      if (woke[self] = "no") { woke[self] := "ttl"; parked[self] := FALSE };
+  e3: \* woken: by Roll's hand-over (woke was set by Roll) or by the TTL timer (delivered in the driver's order)
+      await woke[self] # "no" \/ (TimerDue(self) /\ (Driver => Settled /\ stamp[self] = NextStamp));
+      if (woke[self] = "no") { woke[self] := "ttl"; parked[self] := FALSE; peek[self] := sig[self] };
   e4: \* Lock . requestCounts-- . Unlock . return
       await lock = "free";
       waitcnt := waitcnt - 1;
       if (woke[self] = "sig") {
           res[self] := "ok"; rq := [rq EXCEPT ![self].inq = FALSE];
-      } else if (~KF_C10_LostHandoff /\ sig[self]) {
+      } else if (~KF_C10_LostHandoff /\ (IF TtlPeek THEN peek[self] ELSE sig[self])) {
           res[self] := "ok";                    \* repaired: released while the TTL fired - the slot is taken
           rq := [rq EXCEPT ![self].inq = FALSE];
+      } else if (sig[self]) {
+          \* (TtlPeek) handed over after the look: the slot was counted, the caller is refused all the same.
+          \* What can be observed is a refusal and a window in which one request less was let through
+          res[self] := "ttl"; gone[self] := TRUE;
+          ok := ok /\ P!Expired(self) /\ P!NoSlotFor(self);
+          rq := [rq EXCEPT ![self].st = "rejected", ![self].inq = FALSE];
+          rel := (relWin[self] :> rel[relWin[self]] - 1) @@ rel;
+          last := [ev |-> "ttl", i |-> self];
       } else {
           res[self] := "ttl"; gone[self] := TRUE;
           ok := ok /\ P!CanRejectTTL(self); rq := [rq EXCEPT ![self].st = "rejected", ![self].inq = FALSE];
@@ -129,18 +161,24 @@ process (Enq \in Req) {
 
 process (Roll = "roll") {
   r0: while (TRUE) {
-      await now >= rollAt;
-  r1: await lock = "free";
+      await now >= rollAt /\ (Driver => Settled /\ rollStamp = NextStamp);
+  r1: \* Lock . ensureWindowIsUpdated [the driver can hold the goroutine here, inside the critical section]
+      await lock = "free";
       lock := "roll";
-      with (c = IF NewEnd > wend THEN 0 ELSE counter) {
+      with (c = IF NewEnd > wend THEN 0 ELSE counter; h \in IF Driver THEN BOOLEAN ELSE {FALSE}) {
           counter := c; wend := IF NewEnd > wend THEN NewEnd ELSE wend;
+          held := h;
+          hist := IF h THEN Log([ev |-> "hold"]) ELSE hist;
       };
+  rh: await ~held \/ (Settled /\ DueStamps = {});
+      hist := IF held THEN Log([ev |-> "unhold"]) ELSE hist;
+      held := FALSE;
   r2: while (heap # {} /\ counter < Quota) {
           with (i \in Mins) {
               heap := heap \ {i};
               if (IF KF_C10_LostHandoff THEN parked[i] ELSE ~gone[i]) {
                   \* the send succeeds: a parked receiver is taken out of its select
-                  sig[i] := TRUE; counter := counter + 1;
+                  sig[i] := TRUE; counter := counter + 1; relWin[i] := P!Win(now);
                   if (parked[i]) { parked[i] := FALSE; woke[i] := "sig" };
                   ok := ok /\ P!CanRelease(i); rq := [rq EXCEPT ![i].st = "released"]; rel := CountRel;
                   last := [ev |-> "release", i |-> i];
@@ -152,21 +190,25 @@ process (Roll = "roll") {
       };
   r3: lock := "free";
       rollAt := wend;
+      rollStamp := seq; seq := seq + 1;
   }
 }
 
 process (Clock = "clock") {
   c0: while (now < MaxNow) {
           await Prompt /\ lock = "free" /\ (Driver => Quiet);
+          with (r \in IF Driver THEN BOOLEAN ELSE {FALSE}) {
+              rev := r;
+              hist := Log([ev |-> "tick", rev |-> r]);
+          };
           now := now + 1;
-          hist := Log([ev |-> "tick"]);
       }
 }
 } *)
-\* BEGIN TRANSLATION (chksum(pcal) = "39f11584" /\ chksum(tla) = "e115bcd2")
+\* BEGIN TRANSLATION (chksum(pcal) = "ef7f5ffb" /\ chksum(tla) = "64554498")
 VARIABLES pc, now, counter, wend, heap, waitcnt, lock, ts, gated, parked, sig, 
-          woke, gone, deadline, res, rollAt, cur, rq, rel, last, ok, strand, 
-          hist
+          woke, peek, gone, deadline, stamp, res, relWin, rollAt, rollStamp, 
+          seq, rev, held, cur, rq, rel, last, ok, strand, hist
 
 (* define statement *)
 P == INSTANCE DpqP WITH PReq <- {}, PPrio <- <<>>, PTtl <- <<>>, PMaxNow <- 0
@@ -174,11 +216,19 @@ Less(i, j) == Prio[i] < Prio[j] \/ (Prio[i] = Prio[j] /\ ts[i] < ts[j])
 Mins == {i \in heap : \A j \in heap : ~Less(j, i)}
 NewEnd == (now \div W + 1) * W
 TimerDue(i) == parked[i] /\ now >= deadline[i]
+RollDue == pc["roll"] = "r0" /\ now >= rollAt
 
-Quiet == /\ pc["roll"] = "r0" /\ now < rollAt
-         /\ \A i \in Req : /\ pc[i] \in {"e1", "e3", "Done"} \/ (pc[i] = "e2" /\ gated[i])
-                           /\ ~TimerDue(i)
-                           /\ (pc[i] = "e3" => woke[i] = "no")
+DueStamps == {stamp[i] : i \in {j \in Req : TimerDue(j)}} \cup (IF RollDue THEN {rollStamp} ELSE {})
+NextStamp == IF rev THEN CHOOSE x \in DueStamps : \A y \in DueStamps : y <= x
+             ELSE CHOOSE x \in DueStamps : \A y \in DueStamps : x <= y
+
+Settled == /\ pc["roll"] = "r0" \/ (pc["roll"] = "rh" /\ held)
+           /\ \A i \in Req : \/ pc[i] \in {"e1", "Done"}
+                             \/ pc[i] = "e2" /\ gated[i]
+                             \/ pc[i] = "e3" /\ woke[i] = "no"
+                             \/ pc[i] = "e4" /\ lock # "free"
+
+Quiet == Settled /\ DueStamps = {} /\ pc["roll"] = "r0"
 
 Prompt == /\ pc["roll"] = "r0" /\ now < rollAt
           /\ \A i \in Req : ~TimerDue(i) /\ pc[i] # "e4" /\ (pc[i] = "e3" => woke[i] = "no")
@@ -188,8 +238,8 @@ NewRq(i, st) == (i :> [st |-> st, arr |-> now, prio |-> Prio[i], ttl |-> Ttl[i],
 
 
 vars == << pc, now, counter, wend, heap, waitcnt, lock, ts, gated, parked, 
-           sig, woke, gone, deadline, res, rollAt, cur, rq, rel, last, ok, 
-           strand, hist >>
+           sig, woke, peek, gone, deadline, stamp, res, relWin, rollAt, 
+           rollStamp, seq, rev, held, cur, rq, rel, last, ok, strand, hist >>
 
 ProcSet == (Req) \cup {"roll"} \cup {"clock"}
 
@@ -205,10 +255,17 @@ Init == (* Global variables *)
         /\ parked = [i \in Req |-> FALSE]
         /\ sig = [i \in Req |-> FALSE]
         /\ woke = [i \in Req |-> "no"]
+        /\ peek = [i \in Req |-> FALSE]
         /\ gone = [i \in Req |-> FALSE]
         /\ deadline = [i \in Req |-> -1]
+        /\ stamp = [i \in Req |-> -1]
         /\ res = [i \in Req |-> "none"]
+        /\ relWin = [i \in Req |-> -1]
         /\ rollAt = W
+        /\ rollStamp = 0
+        /\ seq = 1
+        /\ rev = FALSE
+        /\ held = FALSE
         /\ cur = 0
         /\ rq = <<>>
         /\ rel = <<>>
@@ -256,12 +313,15 @@ e1(self) == /\ pc[self] = "e1"
                                          /\ pc' = [pc EXCEPT ![self] = "e2"]
                                          /\ res' = res
                               /\ rel' = rel
-            /\ UNCHANGED << now, lock, parked, sig, woke, gone, deadline, 
-                            rollAt, cur, strand >>
+            /\ UNCHANGED << now, lock, parked, sig, woke, peek, gone, deadline, 
+                            stamp, relWin, rollAt, rollStamp, seq, rev, held, 
+                            cur, strand >>
 
 e2(self) == /\ pc[self] = "e2"
             /\ gated[self] => Quiet
             /\ deadline' = [deadline EXCEPT ![self] = now + Ttl[self]]
+            /\ stamp' = [stamp EXCEPT ![self] = seq]
+            /\ seq' = seq + 1
             /\ IF sig[self]
                   THEN /\ woke' = [woke EXCEPT ![self] = "sig"]
                        /\ UNCHANGED parked
@@ -271,19 +331,22 @@ e2(self) == /\ pc[self] = "e2"
             /\ gated' = [gated EXCEPT ![self] = FALSE]
             /\ pc' = [pc EXCEPT ![self] = "e3"]
             /\ UNCHANGED << now, counter, wend, heap, waitcnt, lock, ts, sig, 
-                            gone, res, rollAt, cur, rq, rel, last, ok, strand >>
+                            peek, gone, res, relWin, rollAt, rollStamp, rev, 
+                            held, cur, rq, rel, last, ok, strand >>
 
 e3(self) == /\ pc[self] = "e3"
-            /\ woke[self] # "no" \/ TimerDue(self)
+            /\ woke[self] # "no" \/ (TimerDue(self) /\ (Driver => Settled /\ stamp[self] = NextStamp))
             /\ IF woke[self] = "no"
                   THEN /\ woke' = [woke EXCEPT ![self] = "ttl"]
                        /\ parked' = [parked EXCEPT ![self] = FALSE]
+                       /\ peek' = [peek EXCEPT ![self] = sig[self]]
                   ELSE /\ TRUE
-                       /\ UNCHANGED << parked, woke >>
+                       /\ UNCHANGED << parked, woke, peek >>
             /\ pc' = [pc EXCEPT ![self] = "e4"]
             /\ UNCHANGED << now, counter, wend, heap, waitcnt, lock, ts, gated, 
-                            sig, gone, deadline, res, rollAt, cur, rq, rel, 
-                            last, ok, strand, hist >>
+                            sig, gone, deadline, stamp, res, relWin, rollAt, 
+                            rollStamp, seq, rev, held, cur, rq, rel, last, ok, 
+                            strand, hist >>
 
 e4(self) == /\ pc[self] = "e4"
             /\ lock = "free"
@@ -291,40 +354,62 @@ e4(self) == /\ pc[self] = "e4"
             /\ IF woke[self] = "sig"
                   THEN /\ res' = [res EXCEPT ![self] = "ok"]
                        /\ rq' = [rq EXCEPT ![self].inq = FALSE]
-                       /\ UNCHANGED << gone, last, ok >>
-                  ELSE /\ IF ~KF_C10_LostHandoff /\ sig[self]
+                       /\ UNCHANGED << gone, rel, last, ok >>
+                  ELSE /\ IF ~KF_C10_LostHandoff /\ (IF TtlPeek THEN peek[self] ELSE sig[self])
                              THEN /\ res' = [res EXCEPT ![self] = "ok"]
                                   /\ rq' = [rq EXCEPT ![self].inq = FALSE]
-                                  /\ UNCHANGED << gone, last, ok >>
-                             ELSE /\ res' = [res EXCEPT ![self] = "ttl"]
-                                  /\ gone' = [gone EXCEPT ![self] = TRUE]
-                                  /\ ok' = (ok /\ P!CanRejectTTL(self))
-                                  /\ rq' = [rq EXCEPT ![self].st = "rejected", ![self].inq = FALSE]
-                                  /\ last' = [ev |-> "ttl", i |-> self]
+                                  /\ UNCHANGED << gone, rel, last, ok >>
+                             ELSE /\ IF sig[self]
+                                        THEN /\ res' = [res EXCEPT ![self] = "ttl"]
+                                             /\ gone' = [gone EXCEPT ![self] = TRUE]
+                                             /\ ok' = (ok /\ P!Expired(self) /\ P!NoSlotFor(self))
+                                             /\ rq' = [rq EXCEPT ![self].st = "rejected", ![self].inq = FALSE]
+                                             /\ rel' = (relWin[self] :> rel[relWin[self]] - 1) @@ rel
+                                             /\ last' = [ev |-> "ttl", i |-> self]
+                                        ELSE /\ res' = [res EXCEPT ![self] = "ttl"]
+                                             /\ gone' = [gone EXCEPT ![self] = TRUE]
+                                             /\ ok' = (ok /\ P!CanRejectTTL(self))
+                                             /\ rq' = [rq EXCEPT ![self].st = "rejected", ![self].inq = FALSE]
+                                             /\ last' = [ev |-> "ttl", i |-> self]
+                                             /\ rel' = rel
             /\ pc' = [pc EXCEPT ![self] = "Done"]
             /\ UNCHANGED << now, counter, wend, heap, lock, ts, gated, parked, 
-                            sig, woke, deadline, rollAt, cur, rel, strand, 
-                            hist >>
+                            sig, woke, peek, deadline, stamp, relWin, rollAt, 
+                            rollStamp, seq, rev, held, cur, strand, hist >>
 
 Enq(self) == e1(self) \/ e2(self) \/ e3(self) \/ e4(self)
 
 r0 == /\ pc["roll"] = "r0"
-      /\ now >= rollAt
+      /\ now >= rollAt /\ (Driver => Settled /\ rollStamp = NextStamp)
       /\ pc' = [pc EXCEPT !["roll"] = "r1"]
       /\ UNCHANGED << now, counter, wend, heap, waitcnt, lock, ts, gated, 
-                      parked, sig, woke, gone, deadline, res, rollAt, cur, rq, 
-                      rel, last, ok, strand, hist >>
+                      parked, sig, woke, peek, gone, deadline, stamp, res, 
+                      relWin, rollAt, rollStamp, seq, rev, held, cur, rq, rel, 
+                      last, ok, strand, hist >>
 
 r1 == /\ pc["roll"] = "r1"
       /\ lock = "free"
       /\ lock' = "roll"
       /\ LET c == IF NewEnd > wend THEN 0 ELSE counter IN
-           /\ counter' = c
-           /\ wend' = (IF NewEnd > wend THEN NewEnd ELSE wend)
+           \E h \in IF Driver THEN BOOLEAN ELSE {FALSE}:
+             /\ counter' = c
+             /\ wend' = (IF NewEnd > wend THEN NewEnd ELSE wend)
+             /\ held' = h
+             /\ hist' = IF h THEN Log([ev |-> "hold"]) ELSE hist
+      /\ pc' = [pc EXCEPT !["roll"] = "rh"]
+      /\ UNCHANGED << now, heap, waitcnt, ts, gated, parked, sig, woke, peek, 
+                      gone, deadline, stamp, res, relWin, rollAt, rollStamp, 
+                      seq, rev, cur, rq, rel, last, ok, strand >>
+
+rh == /\ pc["roll"] = "rh"
+      /\ ~held \/ (Settled /\ DueStamps = {})
+      /\ hist' = IF held THEN Log([ev |-> "unhold"]) ELSE hist
+      /\ held' = FALSE
       /\ pc' = [pc EXCEPT !["roll"] = "r2"]
-      /\ UNCHANGED << now, heap, waitcnt, ts, gated, parked, sig, woke, gone, 
-                      deadline, res, rollAt, cur, rq, rel, last, ok, strand, 
-                      hist >>
+      /\ UNCHANGED << now, counter, wend, heap, waitcnt, lock, ts, gated, 
+                      parked, sig, woke, peek, gone, deadline, stamp, res, 
+                      relWin, rollAt, rollStamp, seq, rev, cur, rq, rel, last, 
+                      ok, strand >>
 
 r2 == /\ pc["roll"] = "r2"
       /\ IF heap # {} /\ counter < Quota
@@ -333,6 +418,7 @@ r2 == /\ pc["roll"] = "r2"
                       /\ IF IF KF_C10_LostHandoff THEN parked[i] ELSE ~gone[i]
                             THEN /\ sig' = [sig EXCEPT ![i] = TRUE]
                                  /\ counter' = counter + 1
+                                 /\ relWin' = [relWin EXCEPT ![i] = P!Win(now)]
                                  /\ IF parked[i]
                                        THEN /\ parked' = [parked EXCEPT ![i] = FALSE]
                                             /\ woke' = [woke EXCEPT ![i] = "sig"]
@@ -345,35 +431,41 @@ r2 == /\ pc["roll"] = "r2"
                                  /\ UNCHANGED strand
                             ELSE /\ strand' = (IF woke[i] = "ttl" \/ gone[i] \/ now >= ts[i] + Ttl[i] THEN strand ELSE strand \cup {i})
                                  /\ UNCHANGED << counter, parked, sig, woke, 
-                                                 rq, rel, last, ok >>
+                                                 relWin, rq, rel, last, ok >>
                  /\ pc' = [pc EXCEPT !["roll"] = "r2"]
             ELSE /\ pc' = [pc EXCEPT !["roll"] = "r3"]
-                 /\ UNCHANGED << counter, heap, parked, sig, woke, rq, rel, 
-                                 last, ok, strand >>
-      /\ UNCHANGED << now, wend, waitcnt, lock, ts, gated, gone, deadline, res, 
-                      rollAt, cur, hist >>
+                 /\ UNCHANGED << counter, heap, parked, sig, woke, relWin, rq, 
+                                 rel, last, ok, strand >>
+      /\ UNCHANGED << now, wend, waitcnt, lock, ts, gated, peek, gone, 
+                      deadline, stamp, res, rollAt, rollStamp, seq, rev, held, 
+                      cur, hist >>
 
 r3 == /\ pc["roll"] = "r3"
       /\ lock' = "free"
       /\ rollAt' = wend
+      /\ rollStamp' = seq
+      /\ seq' = seq + 1
       /\ pc' = [pc EXCEPT !["roll"] = "r0"]
       /\ UNCHANGED << now, counter, wend, heap, waitcnt, ts, gated, parked, 
-                      sig, woke, gone, deadline, res, cur, rq, rel, last, ok, 
-                      strand, hist >>
+                      sig, woke, peek, gone, deadline, stamp, res, relWin, rev, 
+                      held, cur, rq, rel, last, ok, strand, hist >>
 
-Roll == r0 \/ r1 \/ r2 \/ r3
+Roll == r0 \/ r1 \/ rh \/ r2 \/ r3
 
 c0 == /\ pc["clock"] = "c0"
       /\ IF now < MaxNow
             THEN /\ Prompt /\ lock = "free" /\ (Driver => Quiet)
+                 /\ \E r \in IF Driver THEN BOOLEAN ELSE {FALSE}:
+                      /\ rev' = r
+                      /\ hist' = Log([ev |-> "tick", rev |-> r])
                  /\ now' = now + 1
-                 /\ hist' = Log([ev |-> "tick"])
                  /\ pc' = [pc EXCEPT !["clock"] = "c0"]
             ELSE /\ pc' = [pc EXCEPT !["clock"] = "Done"]
-                 /\ UNCHANGED << now, hist >>
+                 /\ UNCHANGED << now, rev, hist >>
       /\ UNCHANGED << counter, wend, heap, waitcnt, lock, ts, gated, parked, 
-                      sig, woke, gone, deadline, res, rollAt, cur, rq, rel, 
-                      last, ok, strand >>
+                      sig, woke, peek, gone, deadline, stamp, res, relWin, 
+                      rollAt, rollStamp, seq, held, cur, rq, rel, last, ok, 
+                      strand >>
 
 Clock == c0
 
@@ -390,5 +482,6 @@ Spec == Init /\ [][Next]_vars
 Termination == <>(\A self \in ProcSet: pc[self] = "Done")
 
 \* END TRANSLATION 
+ 
  
 =============================================================================
